@@ -2525,8 +2525,15 @@ class Head(Expr):
         raise NotImplementedError()
 
     def _simplify_down(self):
+        # ResetIndex labels the rows of every partition from 0: the rows of
+        # several partitions must not be put together before they are labelled
         if (
             isinstance(self.frame, Elemwise)
+            and not (
+                isinstance(self.frame, ResetIndex)
+                and self.operand("npartitions") != 1
+                and self.frame.npartitions > 1
+            )
             and not (isinstance(self.frame, AsType) and self.frame._infers_categories)
             and _rows_of_operands(self.frame)
         ):
